@@ -125,6 +125,12 @@ func runC02(c C02Case) *Result {
 		for _, d := range b.Prune {
 			delete(remembered, d)
 		}
+		for _, d := range b.Learn {
+			remembered[d] = true
+		}
+		if len(b.Learn) > 0 {
+			res.count("blocks_after_learning_live_leaves("+b.LearnHow+")", 1)
+		}
 		for _, d := range b.Del {
 			delete(remembered, d)
 		}
